@@ -1,3 +1,248 @@
-import PybtexModel.Model.Basic
+/-
+C15 — `.bst` source parsing recovers exactly the program that was written.
+
+Property theorems only.  Model of the code: `Model/BstParse.lean` (+ `Model/Scanner.lean`,
+`Model/Lines.lean`); what the reader has to agree with: `Spec/Bst.lean` (abstract syntax,
+`print` with lay-outs, `WFProg`, `CommentAt`, the reference reading `read` of lexeme sequences);
+helper lemmas: `Lemmas/Scanner.lean`, `Lemmas/Bst*.lean`.
+-/
+import PybtexModel.Lemmas.BstLocatedSrc
+import PybtexModel.Lemmas.BstComment
+import PybtexModel.Lemmas.BstEntry
+
 namespace Pybtex.Props
+open Pybtex Pybtex.Bst Pybtex.Scanner
+
+/-! ### Comments -/
+
+/-- `strip_comment` removes exactly the text from the first `%` that is outside a string literal
+(= preceded by an even number of `"` on the line): it returns the line up to that position, and
+the whole line when there is no such `%`.  A `%` inside a literal (odd number of `"` before it)
+is never where the line is cut.  It agrees with the declarative `uncommented` of the spec. -/
+theorem C15_strip_comment (l : Str) :
+    stripComment l = uncommented l ∧
+    (∀ k, CommentAt l k → (∀ j, j < k → ¬ CommentAt l j) → stripComment l = l.take k) ∧
+    ((∀ k, ¬ CommentAt l k) → stripComment l = l) :=
+  ⟨stripComment_eq_uncommented l, stripComment_cut l, stripComment_id l⟩
+
+/-- a non-trivial instance: the `%` inside the literal stays, the second one starts the comment -/
+theorem C15_strip_comment_nonvacuous :
+    CommentAt "\"100%\" is% a myth".toList 9 ∧ ¬ CommentAt "\"100%\" is% a myth".toList 4 ∧
+    stripComment "\"100%\" is% a myth".toList = "\"100%\" is".toList := by
+  refine ⟨by decide, by decide, by rfl⟩
+
+/-- identity on comment-free lines, and idempotent -/
+theorem C15_strip_comment_id (l : Str) :
+    ('%' ∉ l → stripComment l = l) ∧ stripComment (stripComment l) = stripComment l := by
+  refine ⟨?_, stripComment_idem l⟩
+  intro h
+  apply stripComment_id
+  intro k ⟨hk, _⟩
+  exact h (List.mem_of_getElem? hk)
+
+/-! ### Round trip -/
+
+/-- **Printing any well-formed program with ANY lay-out and parsing the text back is the
+identity**: names of any characters but `# " { } %` and white space (quoted or not), strings
+without `"` and line breaks, integers of any sign, function literals nested to any depth,
+commands spelled in any letter case; lay-out = any white space (29 code points, all line-break
+characters included) and `%`-comments (ended by any line break) between any two lexemes, nothing
+at all around braces, a final unterminated comment. -/
+theorem C15_roundtrip (p : Program) (L : Layout) (hwf : WFProg p) :
+    parseString (print p L) = .ok p :=
+  parseString_print p L hwf
+
+namespace C15ex
+def prog : Program :=
+  [⟨"Entry".toList, [[.name "a".toList], [], [.name "b.c".toList]]⟩,
+   ⟨"FUNCTION".toList, [[.name "f".toList],
+      [.int (-12), .quoted "x".toList, .str "100% {#".toList, .name ":=".toList,
+       .fn [.name "+".toList, .fn [], .name "a'*".toList]]]⟩,
+   ⟨"read".toList, []⟩]
+def sp : GapItem := .ws ⟨' ', by decide⟩
+def nlc : GapItem := .ws ⟨'\n', by decide⟩
+def cr : GapItem := .ws ⟨'\r', by decide⟩
+def cm : GapItem := .comment ⟨"it's \"100%".toList, by decide⟩ ⟨'\n', by decide⟩
+def lay : Layout :=
+  ⟨[[cm], [sp], [], [], [], [], [], [nlc], [], [cr, nlc], [sp], [], [], [cm], [], [], [], [.ws ⟨'\x0b', by decide⟩]],
+   some ⟨"end \"".toList, by decide⟩⟩
+end C15ex
+
+/-- the hypothesis of `C15_roundtrip` is satisfiable by a non-trivial program, whose print-out
+under a non-trivial lay-out is the expected text and parses back (evaluated by the kernel) -/
+theorem C15_roundtrip_nonvacuous :
+    WFProg C15ex.prog ∧
+    print C15ex.prog C15ex.lay =
+      "%it's \"100%\nEntry {a}{}{\nb.c}\x0d\nFUNCTION {f}%it's \"100%\n{#-12 'x\"100% {#\"\x0b:={+{}a'*}}read%end \"".toList ∧
+    parseString (print C15ex.prog C15ex.lay) = .ok C15ex.prog := by
+  refine ⟨by decide, by rfl, by rfl⟩
+
+/-- lay-out independence: white space, line breaks, comments and brace spacing do not matter -/
+theorem C15_layout_independent (p : Program) (L₁ L₂ : Layout) (hwf : WFProg p) :
+    parseString (print p L₁) = parseString (print p L₂) := by
+  rw [C15_roundtrip p L₁ hwf, C15_roundtrip p L₂ hwf]
+
+/-! ### Command names -/
+
+/-- Command names are looked up case-insensitively and returned as written: the arity depends on
+the upper-cased name only, and a program whose commands are well-formed up to the letter case of
+their names parses to itself, spelling included. -/
+theorem C15_command_case :
+    (∀ n n' : Str, upper n = upper n' → cmdArity n = cmdArity n') ∧
+    (∀ (p : Program) (L : Layout),
+      (∀ c ∈ p, wfName c.name = true ∧
+        ∃ c₀ : Command, wfCommand c₀ = true ∧ upper c₀.name = upper c.name ∧ c₀.groups = c.groups) →
+      parseString (print p L) = .ok p) := by
+  refine ⟨fun n n' h => by simp [cmdArity, h], ?_⟩
+  intro p L h
+  apply C15_roundtrip
+  unfold WFProg
+  rw [List.all_eq_true]
+  intro c hc
+  obtain ⟨hn, c₀, hw, hu, hg⟩ := h c hc
+  simp only [wfCommand, Bool.and_eq_true, beq_iff_eq] at hw ⊢
+  refine ⟨⟨hn, ?_⟩, ?_⟩
+  · rw [← hg, ← hw.1.2]; simp [cmdArity, hu]
+  · rw [← hg]; exact hw.2
+
+theorem C15_command_case_nonvacuous :
+    cmdArity "eNtRy".toList = some 3 ∧ cmdArity "ENTRY".toList = some 3 ∧
+    cmdArity "iterate".toList = some 1 ∧ cmdArity "entries".toList = none ∧
+    parseString "eNtRy{a}{}{}rEAD".toList =
+      .ok [⟨"eNtRy".toList, [[.name "a".toList], [], []]⟩, ⟨"rEAD".toList, []⟩] := by
+  refine ⟨by decide, by decide, by decide, by decide, by rfl⟩
+
+/-! ### Malformed source -/
+
+/-- **Malformed source is rejected with a syntax error that names the line of the offending
+lexeme.**  The source is a well-formed program `p` followed by the offence, printed with ANY
+lay-out (`gaps`, final comment `tr`); `lexLine ls gaps i` is 1 + the number of line breaks of the
+source in front of lexeme `i`, `eofLine` the last line of the source.
+
+1. where a command is expected stands a lexeme that is not one — an unknown name, a stray `}` or
+   `{`, an integer, a string: "BST command expected" on the line of that lexeme;
+2. a command has fewer groups than its arity and something other than `{` follows:
+   "'{' expected" on the line of that lexeme (this is the repaired behaviour, C15-1);
+3. the text ends while groups of a command are still due: premature end of file, last line;
+4. a group is opened and never closed: premature end of file, last line. -/
+theorem C15_malformed_located (p : Program) (hp : WFProg p) (gaps : List Gap)
+    (tr : Option CommentText) :
+    (∀ (bad : Lex) (more : List Lex), wfLex bad = true → (∀ x ∈ more, wfLex x = true) →
+      (∀ s, bad = .word s → cmdArity s = none) →
+      parseString (render none (Program.lexemes p ++ bad :: more) gaps ++ trailerText tr)
+        = .error (.tokenRequired "BST command".toList
+            (lexLine (Program.lexemes p ++ bad :: more) gaps (Program.lexemes p).length))) ∧
+    (∀ (name : Str) (gs : List (List Tok)) (j : Nat) (bad : Lex) (more : List Lex),
+      wfName name = true → cmdArity name = some (gs.length + (j + 1)) → gs.all wfToks = true →
+      wfLex bad = true → bad ≠ .lb → (∀ x ∈ more, wfLex x = true) →
+      parseString (render none
+          (Program.lexemes p ++ .word name :: (groupsLexemes gs ++ bad :: more)) gaps ++ trailerText tr)
+        = .error (.tokenRequired "'{'".toList
+            (lexLine (Program.lexemes p ++ .word name :: (groupsLexemes gs ++ bad :: more)) gaps
+              ((Program.lexemes p).length + 1 + (groupsLexemes gs).length)))) ∧
+    (∀ (name : Str) (gs : List (List Tok)) (j : Nat),
+      wfName name = true → cmdArity name = some (gs.length + (j + 1)) → gs.all wfToks = true →
+      parseString (render none (Program.lexemes p ++ .word name :: groupsLexemes gs) gaps
+          ++ trailerText tr)
+        = .error (.prematureEOF (eofLine (render none
+            (Program.lexemes p ++ .word name :: groupsLexemes gs) gaps ++ trailerText tr)))) ∧
+    (∀ (name : Str) (gs : List (List Tok)) (j : Nat) (ts : List Tok),
+      wfName name = true → cmdArity name = some (gs.length + (j + 1)) → gs.all wfToks = true →
+      wfToks ts = true →
+      parseString (render none
+          (Program.lexemes p ++ .word name :: (groupsLexemes gs ++ .lb :: lexemesList ts)) gaps
+          ++ trailerText tr)
+        = .error (.prematureEOF (eofLine (render none
+            (Program.lexemes p ++ .word name :: (groupsLexemes gs ++ .lb :: lexemesList ts)) gaps
+            ++ trailerText tr)))) :=
+  ⟨fun bad more hb hm hn => located_bad_command p bad more gaps tr hp hb hm hn,
+   fun name gs j bad more h1 h2 h3 h4 h5 h6 =>
+     located_brace_expected p name gs j bad more gaps tr hp h1 h2 h3 h4 h5 h6,
+   fun name gs j h1 h2 h3 => located_missing_groups p name gs j gaps tr hp h1 h2 h3,
+   fun name gs j ts h1 h2 h3 h4 => located_open_group p name gs j ts gaps tr hp h1 h2 h3 h4⟩
+
+/-- concrete instances of the four cases (kernel evaluation), each with the offence on line 3 of
+a text whose lay-out has comments; the reference reading `read` of the lexeme sequence names the
+same offending lexeme -/
+theorem C15_malformed_located_nonvacuous :
+    parseString "READ % c\n\nfoo {x}".toList = .error (.tokenRequired "BST command".toList 3) ∧
+    parseString "READ\n%\n} sort".toList = .error (.tokenRequired "BST command".toList 3) ∧
+    parseString "ENTRY {a}\n  {b}\n  READ".toList = .error (.tokenRequired "'{'".toList 3) ∧
+    parseString "MACRO {a}\n\n %x".toList = .error (.prematureEOF 3) ∧
+    parseString "FUNCTION {f}\n{ a { b }\n #1 % }".toList = .error (.prematureEOF 3) ∧
+    (match read [.word "READ".toList, .word "foo".toList, .lb, .word "x".toList, .rb] with
+      | .badCommand 1 => True | _ => False) ∧
+    (match read [.word "ENTRY".toList, .lb, .word "a".toList, .rb, .lb, .word "b".toList, .rb,
+        .word "READ".toList] with
+      | .braceExpected 7 => True | _ => False) := by
+  refine ⟨by rfl, by rfl, by rfl, by rfl, by rfl, by exact True.intro, by exact True.intro⟩
+
+/-- Unterminated string literal, at the level of the text handed to the parser: when the scanner,
+inside a group, reaches a `"` after which no further `"` occurs, it reports
+"name or string or integer or '{' or '}' expected" on the line it is on (the line of the quote).
+(The end-to-end form, from a printed source, is not proved; see the report.) -/
+theorem C15_unterminated_string_partial (fuel : Nat) (w J : Str) (ln : Nat)
+    (hw : ∀ c ∈ w, isWs c = true ∧ c ≠ '\r') (hJ : '"' ∉ J) :
+    parseGroupF (fuel + 1) ⟨w ++ '"' :: J, ln⟩
+      = .error (.tokenRequired "name or string or integer or '{' or '}'".toList
+          (ln + w.count '\n')) := by
+  have := parseGroupF_open_string fuel w J hw hJ ln
+  rw [this]
+  rfl
+
+theorem C15_unterminated_string_partial_nonvacuous :
+    parseString "FUNCTION {f}\n{ \"abc % {\n}".toList
+      = .error (.tokenRequired "name or string or integer or '{' or '}'".toList 2) := by rfl
+
+/-! ### The model's loops -/
+
+/-- The fuel-indexed loops of the model (`parse_group`, `parse`) never run out of fuel: every
+turn consumes at least one character.  The entry points never return the model-only outcomes. -/
+theorem C15_fuel_adequate :
+    (∀ (src : Str) (e : Err), parseString src = .error e → e ≠ .outOfFuel ∧ e ≠ .eof) ∧
+    (∀ (src : Str) (e : Err), parseStream src = .error e → e ≠ .outOfFuel ∧ e ≠ .eof) ∧
+    (∀ (st : St) (e : Err), parseGroup st = .error e → e ≠ .outOfFuel) := by
+  refine ⟨fun src e h => parseText_fuel _ e h, fun src e h => parseText_fuel _ e h, ?_⟩
+  intro st e h
+  have := parseGroup_fuel st
+  rw [h] at this
+  exact this
+
+/-! ### Entry points -/
+
+/-- On text whose only line breaks are `\n` and `\r\n`, `parse_stream` hands the parser the text
+of `parse_string` with every line additionally right-stripped; with no trailing white space the
+three entry points hand the parser the same text, hence agree. -/
+theorem C15_entry_points_agree_partial (src : Str) (hplain : plainBreaks src = true) :
+    streamText (streamLines src)
+      = joinWith ['\n'] ((splitLines src).map fun l => stripComment (rstrip l)) ∧
+    (noTrailingWs src = true →
+      parseStream src = parseString src ∧ parseFile src = parseString src) := by
+  refine ⟨streamText_plain src hplain, ?_⟩
+  intro ht
+  have h1 : parseStream src = parseString src := by
+    unfold parseStream parseString
+    rw [streamText_eq_stringText src hplain ht]
+  refine ⟨h1, ?_⟩
+  obtain ⟨hu1, hu2⟩ := splitLines_universal src hplain
+  unfold parseFile parseStream parseString
+  rw [streamText_plain _ hu2, hu1, ← streamText_plain src hplain,
+    streamText_eq_stringText src hplain ht]
+
+theorem C15_entry_points_agree_partial_nonvacuous :
+    plainBreaks "ENTRY {a}\r\n  {} {b} % c\nREAD".toList = true ∧
+    noTrailingWs "ENTRY {a}\r\n  {} {b} % c\nREAD".toList = true := by
+  refine ⟨by decide, by decide⟩
+
+/-- Without the proviso the entry points do NOT agree: a string literal spanning a line break
+keeps the white space before the break under `parse_string` and loses it under `parse_stream`
+(`line.rstrip()`); the text has plain `\n` line breaks only. -/
+theorem C15_entry_points_agree_neg :
+    plainBreaks "FUNCTION {f} {\"a \nb\"}".toList = true ∧
+    parseString "FUNCTION {f} {\"a \nb\"}".toList
+      = .ok [⟨"FUNCTION".toList, [[.name "f".toList], [.str "a \nb".toList]]⟩] ∧
+    parseStream "FUNCTION {f} {\"a \nb\"}".toList
+      = .ok [⟨"FUNCTION".toList, [[.name "f".toList], [.str "a\nb".toList]]⟩] := by
+  refine ⟨by decide, by rfl, by rfl⟩
+
 end Pybtex.Props
